@@ -52,9 +52,17 @@ PROFILES = {
                 faults=True, fault_kinds=['foreign', 'inactive', 'deadev', 'nested'], deferred_emit=True,
                 w=dict(connect=28, emit=30, disc=10, block=8, query=6, copy=4, move=3, scoped=2, blocker=3, ev=6)),
     # C11: moves of signals and scoped connections
-    'C11': dict(flavours=['plain', 'refl', 'single', 'deferred'], slots=[], faults=False,
-                w=dict(connect=24, emit=22, disc=8, block=8, query=10, copy=3, move=18, scoped=12, blocker=0, ev=4,
+    # slots that move-assign signals (also the one that is emitting) and reassign scoped connections: "whatever the destination held
+    # before is disposed of as if destroyed" also when the disposal can only be requested because an emission is running
+    'C11': dict(flavours=['plain', 'refl', 'single', 'deferred', 'deferred'],
+                slots=['sigmoveassign', 'scmove', 'scassign', 'sigmoveassign', 'active', 'disch'], faults=False, samekind=True,
+                w=dict(connect=24, emit=24, disc=8, block=8, query=10, copy=3, move=16, scoped=12, blocker=0, ev=6,
                        sigdel=3)),
+    # C19: evaluators released by their owner while deferred connections to them stay connected; emissions towards them must be
+    # rejected, not queued where nobody can ever evaluate them (seeded change C19-5: connections that own their evaluator)
+    'C19': dict(flavours=['plain', 'deferred', 'deferred', 'single', 'bound'],
+                slots=['disch', 'active', 'eval'], faults=True, fault_kinds=['deadev'],
+                w=dict(connect=28, emit=30, disc=12, block=4, query=4, copy=3, move=3, scoped=3, blocker=0, ev=12, sigdel=2)),
     # general mixes (thorough tier, C19)
     'clean': dict(flavours=['plain', 'bound', 'refl', 'single', 'deferred'],
                   slots=['disch', 'discall', 'tryblockh', 'scdrop', 'emit', 'active', 'eval'], faults=False,
@@ -131,6 +139,16 @@ class Gen:
                         body.append(f"active {h}")
                 elif a == 'eval':
                     body.append(f"eval {r.randrange(2 if self.p.get('two_evs') else 3)}")
+                elif a == 'sigmoveassign':
+                    # within one tier (all signals of a tier have the same signature in profiles with 'samekind')
+                    base = r.choice([0, 4])
+                    d_, s_ = r.sample(range(base, base + 4), 2)
+                    body.append(f"sigmoveassign {d_} {s_}")
+                elif a == 'scmove':
+                    a_, b_ = r.sample(range(6), 2)
+                    body.append(f"scmove {a_} {b_}")
+                elif a == 'scassign':
+                    body.append(f"scassign {r.randrange(6)} {h}")
                 elif a == 'blockh':
                     body.append(f"blockh {h} {r.randrange(2)}")
                 elif a == 'discs':
@@ -384,6 +402,9 @@ class Gen:
         kinds1 = [r.randrange(4) for _ in range(4)]
         if self.p.get('dense') or self.p.get('churn'):
             kinds0[1] = kinds0[0]
+        if self.p.get('samekind'):
+            kinds0 = [kinds0[0]] * 4
+            kinds1 = [kinds1[0]] * 4
         for i in range(4):
             self.emit_line(f"signew {i} {kinds0[i]}")
             self.sigs[i] = (kinds0[i], 0)
